@@ -185,7 +185,9 @@ impl RustDocument {
 
     pub fn switch_to_target_namespace(&mut self, namespace: &str) {
         // check if the namespace is already in the list
-        if !self.target_namespaces.iter().any(|ns| ns.namespace == namespace) {
+        if let Some(known) = self.target_namespaces.iter().find(|ns| ns.namespace == namespace) {
+            self.current_target_namespace = Some(known.clone());
+        } else {
             // Check if we already have a reference to this namespace. If so, use that one, otherwise create a new one.
             let tns = self
                 .namespaces
